@@ -68,7 +68,7 @@ ENSURES = [
     # ... filtered with the first per-domain filter whose domain ends the parsed host
     "implies(%s and %s != '', g_DF == %s)" % (OK, QUERY0, DF),
     "implies(%s and not unsplit, result == %s)" % (OK, RECORD),
-    "implies(%s and unsplit, result == obj(ite(%s, %s[2:], %s)))" % (OK, NOSCHEME, UNSPLIT, UNSPLIT),
+    "implies(%s and unsplit, result == obj(ite(%s and %s.startswith('//'), %s[2:], %s)))" % (OK, NOSCHEME, UNSPLIT, UNSPLIT, UNSPLIT),
 ]
 
 NH1 = "uf('decode_punycode_hostname', 'Str', uf('re_sub', 'Str', CONTROL_CHARS_RE, '', old(hostname)).strip().lower())"
